@@ -151,6 +151,9 @@ class SafeLearner(Learner):
             else:
                 #pmf or action
                 std_pred = [std_pred]
+        else:
+            #one item pmf or one item action
+            std_pred = [std_pred]
 
         #at this point pred should be
             #[pmf], [action], [action,prob]
